@@ -322,6 +322,23 @@ func genValidLiteral(t *rapid.T, thorough bool) string {
 			}
 			return intD
 		}() + "e" + strconv.Itoa(e)
+	case kind == 9:
+		// an exactly representable value written out positionally with zeros far beyond the 39-digit
+		// accumulator (what Format(d, 'f', -1) prints for large and for padded values): no mode may round it
+		body := fullCoef(t).String()
+		if ir(t, 0, 1, "short") == 0 {
+			body = digitString(t, ir(t, 1, 34, "n"))
+			if body[0] == '0' {
+				body = "1" + body[1:]
+			}
+		}
+		z := ir(t, 0, 60, "zeros")
+		if ir(t, 0, 1, "fractional") == 0 {
+			intD, fracD, hasDot = body+strings.Repeat("0", z), strings.Repeat("0", ir(t, 0, 50, "fz")), true
+		} else {
+			cut := ir(t, 0, len(body), "cut")
+			intD, fracD, hasDot = body[:cut], body[cut:]+strings.Repeat("0", z), true
+		}
 	case kind == 8:
 		// zero values
 		intD = strings.Repeat("0", ir(t, 0, 5, "iz"))
